@@ -9,6 +9,7 @@ import (
 	"fmt"
 	"math/big"
 	"math/rand/v2"
+	"strings"
 
 	"github.com/consensys/gnark-crypto/ecc"
 
@@ -132,6 +133,17 @@ func judgePair(r *vcore.Run, c *pairCase, o outcome) {
 	rep["native_says_satisfiable"] = want
 	rep["note"] = o.Vals["note"]
 	rep["error"] = o.Err
+	if (c.Kind == "ong1" || c.Kind == "ong2") && strings.Contains(o.Err, "not implemented") {
+		// sw_bls24315 declares these methods but panics("not implemented"): not offered
+		r.Count("pair.skipped-method-not-implemented", 1)
+		return
+	}
+	if c.Kind == "isequal" && !o.Sat && strings.Contains(o.Err, "not supported") {
+		// the gadget hands *frontend.Variable to the API: it cannot be executed at all
+		r.Count("pair.isequal.NOT-EXECUTABLE", 1)
+		r.Violation(fam+"/gadget-cannot-be-executed(passes-pointers-to-the-API)", fmt.Sprintf("%s: Pairing.IsEqual fails before computing anything: %s", fam, o.Err), rep)
+		return
+	}
 	if c.Kind == "isequal" && !o.Sat {
 		// the assignment carries the right boolean; unsatisfiable means the gadget computed the other one
 		r.Count("pair.isequal.WRONG-BOOLEAN", 1)
